@@ -533,7 +533,9 @@ Definition C07_round (c : ccfg) (r : round) : option string :=
               let l_after := names_of c lat_after in
               let old_claimed := flat_map (names_of c) (filter (fun x => negb (is_latest_rev c sent x)) before) in
               let observed := observed_of c r sent in
-              let ldes := relative_desired pns (hr_children lresp) in
+              (* what the controller wants of a child: the hook's object plus, under a generated
+                 selector, the controller-uid label every child is created with *)
+              let ldes := relative_desired pns (hr_children (label_resp c sent lresp)) in
               let up_to_date := fun (k : claim_key) =>
                 match k with (g, kd, n) =>
                   match find_observed pns observed g kd n, find_desired ldes g kd n with
